@@ -206,9 +206,9 @@ UNITS["C13"] = [
          klass="complete", domain="all n, all length sequences", pre="every lexeme length >= 1; start + sum(lens) == n", post="at most n - start lexemes (a driver loop over next_token's contract terminates having consumed exactly the input)",
          kind="obligation", tiers=["quick", "thorough"], timeout_s=600),
     _k("c13_lexer_contract_inputs_up_to_2_bytes", "fea-rs", "fea-rs/src/parse/lexer.rs", ["fea_rs::parse::lexer::Lexer::next_token (real, unextracted)"], "bounded",
-       "every valid UTF-8 input of <= 2 bytes, first three tokens", "valid UTF-8, |input| <= 2", "T1, T2, T3 on each of the first three next_token calls; third lexeme is Eof", timeout_s=900, companion=True, on_demand=True),
+       "every valid UTF-8 input of <= 2 bytes, first three tokens", "valid UTF-8, |input| <= 2", "lexer starts at byte 0; T1, T2, T3, T4 on each of the first three next_token calls; third lexeme is Eof", timeout_s=1200, companion=True, on_demand=True),
     _k("c13_lexer_contract_inputs_of_3_bytes", "fea-rs", "fea-rs/src/parse/lexer.rs", ["fea_rs::parse::lexer::Lexer::next_token (real, unextracted)"], "bounded",
-       "every valid UTF-8 input of exactly 3 bytes, first two tokens", "valid UTF-8, |input| == 3", "lexer starts at byte 0; T1, T2, T3 on the first two next_token calls", timeout_s=1800, on_demand=True),
+       "every valid UTF-8 input of exactly 3 bytes, first two tokens", "valid UTF-8, |input| == 3", "lexer starts at byte 0; T1, T2, T3, T4 on the first two next_token calls", timeout_s=1800, on_demand=True, companion=True),
     _k("c13_from_keyword_never_eof", "fea-rs", "fea-rs/src/parse/lexer/lexeme.rs", ["fea_rs::parse::lexer::lexeme::Kind::from_keyword"], "bounded",
        "every byte word of length <= 26 (longest keyword has 25 bytes)", "|word| <= 26", "result is never Some(Eof/Tombstone/Ident/Whitespace); empty word => None  (the contract the Verus proof assumes for this external_body function)", timeout_s=900),
     _k("c13_lexer_cover", "fea-rs", "fea-rs/src/parse/lexer.rs", [], "complete", "", "", "identifier, non-ASCII character, number reachable in the companion's input generator", kind="cover", timeout_s=1800, on_demand=True),
